@@ -191,6 +191,12 @@ func wfRangeReq(o *ObjectRangeRequest) bool {
 //@ ghost put_meta : Int
 //@ ghost put_size : Int
 //@ ghost put_input : If
+// the last object read from the backend: which (bucket, key, version) was asked for ("" = current) and what came back
+//@ ghost get_count : Int
+//@ ghost get_bucket : Str
+//@ ghost get_key : Str
+//@ ghost get_ver : Str
+//@ ghost get_obj : Int
 
 //@ iface gofakes3.TimeSource.Now
 
@@ -393,9 +399,13 @@ func wfRangeReq(o *ObjectRangeRequest) bool {
 //@ requires           prefix: prefix != nil
 //@ ensures            res:    imp(ret1 == nil, ret0 != nil && all(i, 0, len(ret0.Contents), ret0.Contents[i] != nil))
 //@ iface gofakes3.Backend.HeadObject
+//@ modifies get_count, get_bucket, get_key, get_ver, get_obj
 //@ ensures            res:    imp(ret1 == nil, ret0 != nil && ret0.Contents != nil)
+//@ ensures            log:    get_count == old(get_count) + 1 && get_bucket == bucketName && get_key == objectName && get_ver == "" && get_obj == ret0
 //@ iface gofakes3.Backend.GetObject
 //@ requires [C11]     wf:     wfRangeReq(rangeRequest)
+//@ modifies get_count, get_bucket, get_key, get_ver, get_obj
+//@ ensures            log:    get_count == old(get_count) + 1 && get_bucket == bucketName && get_key == objectName && get_ver == "" && get_obj == ret0
 //@ ensures            res:    imp(ret1 == nil, ret0 != nil && ret0.Contents != nil && ret0.Size >= 0)
 //@ ensures [C11]      range:  imp(ret1 == nil && ret0 != nil && ret0.Range != nil, 0 <= ret0.Range.Start && 1 <= ret0.Range.Length &&
 //@                              ret0.Range.Start + ret0.Range.Length <= ret0.Size)
@@ -420,10 +430,14 @@ func wfRangeReq(o *ObjectRangeRequest) bool {
 //@ modifies store_gen
 //@ iface gofakes3.VersionedBackend.GetObjectVersion
 //@ requires [C11]     wf:     wfRangeReq(rangeRequest)
+//@ modifies get_count, get_bucket, get_key, get_ver, get_obj
+//@ ensures            log:    get_count == old(get_count) + 1 && get_bucket == bucketName && get_key == objectName && get_ver == versionID && get_obj == ret0
 //@ ensures            res:    imp(ret1 == nil && ret0 != nil, ret0.Contents != nil && ret0.Size >= 0)
 //@ ensures [C11]      range:  imp(ret1 == nil && ret0 != nil && ret0.Range != nil, 0 <= ret0.Range.Start && 1 <= ret0.Range.Length &&
 //@                              ret0.Range.Start + ret0.Range.Length <= ret0.Size)
 //@ iface gofakes3.VersionedBackend.HeadObjectVersion
+//@ modifies get_count, get_bucket, get_key, get_ver, get_obj
+//@ ensures            log:    get_count == old(get_count) + 1 && get_bucket == bucketName && get_key == objectName && get_ver == versionID && get_obj == ret0
 //@ ensures            res:    imp(ret1 == nil && ret0 != nil, ret0.Contents != nil)
 //@ iface gofakes3.VersionedBackend.DeleteObjectVersion
 //@ modifies store_gen
@@ -577,9 +591,11 @@ func wfRangeReq(o *ObjectRangeRequest) bool {
 //@ func (*GoFakeS3).getObject
 //@ props C09 C11 C05
 //@ requires           inv:    gInv(g) && w != nil && rqInv(r)
+//@ ensures [C05,C01]  asked:  imp(ret0 == nil, get_count == old(get_count) + 1 && get_bucket == bucket && get_key == object && get_ver == versionID)
 //@ func (*GoFakeS3).getObject$1
 //@ props C09
 //@ requires           inv:    Contents != nil && g != nil && *g != nil && (*g).log != nil
+//@ modifies nothing
 //@ func (*GoFakeS3).writeGetOrHeadObjectResponse
 //@ props C09 C01
 //@ requires           inv:    gInv(g) && w != nil && rqInv(r) && obj != nil
@@ -587,6 +603,7 @@ func wfRangeReq(o *ObjectRangeRequest) bool {
 //@ func (*GoFakeS3).headObject
 //@ props C09 C05
 //@ requires           inv:    gInv(g) && w != nil && rqInv(r)
+//@ ensures [C05,C01]  asked:  imp(ret0 == nil, get_count == old(get_count) + 1 && get_bucket == bucket && get_key == object && get_ver == versionID)
 //@ func (*GoFakeS3).createObjectBrowserUpload
 //@ props C09 C08
 //@ requires           inv:    gInv(g) && w != nil && rqInv(r)
